@@ -53,7 +53,10 @@ CLAIMS = {
  "C17": ("Coq theorems (Props/C17.v): the Debug string builders depend only on flags/platform/count/counter/position; after "
          "zeroize every modelled field except platform is zero. Correspondence: real {:?} strings must equal the model's "
          "(built from public fields only) on states with varied secrets; after zeroize() every byte inside a field range "
-         "(hook) of Hasher/OutputReader must be 0 and later behaviour must equal the all-zero state's.",
+         "(hook) of Hasher/OutputReader must be 0 and later behaviour must equal the all-zero state's. The struct field lists, the bodies "
+         "of all five Zeroize impls and of the four hand-written Debug impls are TRANSLATED into data (gen/GenSecret.v; any statement other "
+         "than `<field>.zeroize()` / one builder chain is an anchor error) with theorems C17_src_*: every declared field except `platform` is "
+         "wiped exactly once, no secret-holding struct derives Debug, the builder chains print exactly the model's expressions.",
          "Partial: object layout, padding bytes and moved-from temporaries are outside the model (padding is not scanned).",
          "Coq proof on the model (non-interference by construction) + memory-scan correspondence"),
  "C13": ("Coq theorems (Props/C13.v): over strings as lists of Unicode scalars with byte lengths: print->parse round trip for "
@@ -100,7 +103,9 @@ CLAIMS = {
          "to 'lane i = low/high word of counter + i' for all counters; hash1 / hash_one_* and the WHOLE hash_many / blake3_hash_many_* functions "
          "(every batch loop and the trailing one-at-a-time loop of the portable, SSE2, SSE4.1, AVX2, AVX-512 Rust and C files) are TRANSLATED "
          "(gen/GenCascades.v) and proved equal to the cascade models result by result at every sufficient fuel (Proofs/CascadesP*.v, "
-         "C05_src_*hash_many*). Correspondence at kernel level for EVERY executable flavour (Rust asm/intrinsics/pure builds, C "
+         "C05_src_*hash_many*); the whole hash4 / hash8 of the three Rust intrinsics files and blake3_hash4/8/16_avx512 (key broadcast, block loop, "
+         "counters, final transpose, stores) are TRANSLATED (gen/GenKern2.v) and proved equal to the N-way kernel models and to portable hash1 of "
+         "each input (C05_src_*hashN*); blake3_hash4_sse2/_sse41, blake3_hash8_avx2 and the AVX-512 xof kernels are translated but not yet proved. Correspondence at kernel level for EVERY executable flavour (Rust asm/intrinsics/pure builds, C "
          "intrinsics, Unix assembly, Windows-GNU assembly via ms_abi) against the extracted portable model: block_len 0..64, "
          "flags 0..255, counters around 2^32/2^63/2^64, num_inputs 0..2*degree+1, alignments, xof 1..35 blocks.",
          "Partial: the assembly and intrinsics CODE is not modelled instruction by instruction (no ISA semantics installed): "
